@@ -239,6 +239,9 @@ http_rd_buf(nni_http_conn *conn, nni_aio *aio)
 		// a full transaction on a FULL read, or were not even able
 		// to get *any* data for a partial RAW read.)
 		conn->buffered = false;
+		// nni_aio_set_iov above moved the remaining elements to the
+		// front of the user aio's vector, so our pointer is stale.
+		nni_aio_get_iov(aio, &nio, &iov);
 		nni_aio_set_iov(&conn->rd_aio, nio, iov);
 		nng_stream_recv(conn->sock, &conn->rd_aio);
 		return (NNG_EAGAIN);
